@@ -851,12 +851,58 @@ def names_table(ctx):
         ctx.flush(DRIVER)
 
 
+def exotic_texts(ctx):
+    """expression texts outside the modelled fragment (assignment expressions, comprehensions, lambdas, conditional
+    expressions): oracle only — whatever Python makes of them, a strict vocabulary gains nothing through parse, a
+    non-strict one only the valid names the text LOADS, and `populate('Q = <text>')` adds at most Q"""
+    texts = ["(X := A)", "[Y := A][0]", "A if (Z := B) else A", "(lambda: A)()", "[A for W in [1]][0]", "(X := A) + (X2 := B)",
+             "A + (M := Missing)", "(K := 2) * A"]
+    for alg in (HrrAlgebra(), VtbAlgebra(), TvtbAlgebra()):
+        for strict in (True, False):
+            for text in texts:
+                for via in ("parse", "populate"):
+                    v = spa.Vocabulary(4, strict=strict, algebra=alg, pointer_gen=np.random.RandomState(3), max_similarity=1.0)
+                    v.add("A", [1.0, 0, 0, 0])
+                    v.add("B", [0, 1.0, 0, 0])
+                    before = (list(v.keys()), v.vectors.copy())
+                    try:
+                        loads = {n.id for n in ast.walk(ast.parse(text, mode="eval")) if isinstance(n, ast.Name)
+                                 and isinstance(n.ctx, ast.Load)}
+                    except SyntaxError:
+                        loads = set()
+                    exc = None
+                    try:
+                        with warnings.catch_warnings():
+                            warnings.simplefilter("ignore")
+                            if via == "parse":
+                                v.parse(text)
+                            else:
+                                v.populate("Q = " + text)
+                    except Exception as e:  # noqa: BLE001
+                        exc = type(e).__name__
+                    after = list(v.keys())
+                    allowed = set(before[0])
+                    if not strict:
+                        allowed |= {n for n in loads if re.fullmatch(r"[A-Z][A-Za-z0-9_]*", n)}
+                    if via == "populate" and exc is None:
+                        allowed |= {"Q"}
+                    case = {"op": "exotic-text", "via": via, "text": text, "strict": strict, "alg": type(alg).__name__,
+                            "exception": exc, "keys_before": before[0], "keys_after": after}
+                    ctx.count(f"exotic {type(alg).__name__} {strict} {via} {text}", nontrivial=True, branch=f"exotic-{via}")
+                    extra = [k for k in after if k not in allowed]
+                    if extra or after[:len(before[0])] != before[0] or not np.array_equal(v.vectors[:len(before[0])], before[1]):
+                        ctx.fail(case, f"keys gained: {extra}; keys after: {after}",
+                                 "no key beyond the loaded missing valid names (none for a strict vocabulary), stored pairs unchanged",
+                                 where="exotic-text-gains-key")
+
+
 def run(ctx):
     if getattr(ctx, "replay", None) and isinstance(ctx.replay.get("case"), dict) and "python_ops" in ctx.replay["case"]:
         case = ctx.replay["case"]
         ctx.note("replay of a recorded history: " + " ".join(case["ops"]))
     quick = ctx.tier == "quick"
     names_table(ctx)
+    exotic_texts(ctx)
     exhaustive(ctx, 3 if quick else 4, full=quick)
     randomised(ctx, 300 if quick else 6000, 40)
     ctx.extra["exhaustive_depth"] = 3 if quick else 4
